@@ -1,6 +1,6 @@
 ------------------------------- MODULE GenDb -------------------------------
 (* C09: exhaustive database histories over the dynamic predicate p/1 (duplicate clauses, a     *)
-(* clause with a variable, a distinguished last clause). A history is a sequence of N top-level steps; after every step the *)
+(* clause with a variable, a rule, a distinguished last clause). A history is a sequence of N top-level steps; after every step the *)
 (* clause list of p/1 is observed through clause/2 (reported by the probe w/1). Steps are      *)
 (* plain updates and failure-driven loops that update p/1 while a call to p/1, a retract/1 or  *)
 (* a clause/2 on it is still open for backtracking.                                            *)
@@ -13,11 +13,14 @@ X == V(1)
 L == V(2)
 Conj2(a, b) == C(",", <<a, b>>)
 Upd == { C("assertz", <<P(I(7))>>), C("asserta", <<P(I(7))>>), C("retract", <<P(I(2))>>), C("once", <<C("retract", <<P(V(3))>>)>>),
-         C("retract", <<P(X)>>), C("retractall", <<P(I(2))>>), C("retract", <<P(I(3))>>), A("true") }     \* p(3) is the last clause
+         C("retract", <<P(X)>>), C("retractall", <<P(I(2))>>), C("retract", <<P(I(3))>>), A("true"),       \* p(3) is the last clause
+         C("retract", <<C(":-", <<P(I(4)), V(4)>>)>>), C("retractall", <<P(I(4))>>) }                       \* p(4) :- w(4) is a rule
 \* two updates in one iteration (e.g. remove the last clause, then append a new one)
 Upd2 == { Conj2(u1, u2) : u1 \in Upd \ {A("true")}, u2 \in Upd \ {A("true")} }
 Plain == { C("assertz", <<P(I(8))>>), C("asserta", <<P(I(0))>>), C("assertz", <<P(V(3))>>), C("retract", <<P(I(2))>>), C("retract", <<P(V(3))>>),
-           C("retract", <<C(":-", <<P(V(3)), V(4)>>)>>), C("retractall", <<P(V(3))>>), C("retractall", <<P(I(2))>>), C("abolish", <<C("/", <<A("p"), I(1)>>)>>) }
+           C("retract", <<C(":-", <<P(V(3)), V(4)>>)>>), C("retractall", <<P(V(3))>>), C("retractall", <<P(I(2))>>), C("abolish", <<C("/", <<A("p"), I(1)>>)>>),
+           C("retract", <<C(":-", <<P(I(4)), V(4)>>)>>), C("retract", <<P(I(4))>>), C("retractall", <<P(I(4))>>), C("retractall", <<P(C("f", <<I(1)>>))>>),
+           C("assertz", <<C(":-", <<P(I(5)), C("w", <<I(5)>>)>>)>>), C("asserta", <<C(":-", <<P(V(3)), C("w", <<V(3)>>)>>)>>) }
 \* an opener leaves a call / a retract / a clause/2 on p/1 open for backtracking; the probe w(X) shows each solution
 Open(o) == Conj2(o, C("w", <<X>>))
 Openers == { P(X), C("retract", <<P(X)>>), C("clause", <<P(X), A("true")>>) }
@@ -39,8 +42,9 @@ Db0 == << [key |-> <<"p", 1>>, dyn |-> TRUE, cls |-> << [id |-> 1, head |-> P(I(
                                                         [id |-> 2, head |-> P(I(2)), body |-> TrueA, nv |-> 0],
                                                         [id |-> 3, head |-> P(C("f", <<V(1)>>)), body |-> TrueA, nv |-> 1],
                                                         [id |-> 4, head |-> P(I(2)), body |-> TrueA, nv |-> 0],
-                                                        [id |-> 5, head |-> P(I(3)), body |-> TrueA, nv |-> 0] >>],
-          [key |-> <<"w", 1>>, dyn |-> FALSE, cls |-> << [id |-> 6, head |-> C("w", <<V(1)>>), body |-> TrueA, nv |-> 1] >>] >>
+                                                        [id |-> 5, head |-> P(I(4)), body |-> C("w", <<I(4)>>), nv |-> 0],
+                                                        [id |-> 6, head |-> P(I(3)), body |-> TrueA, nv |-> 0] >>],
+          [key |-> <<"w", 1>>, dyn |-> FALSE, cls |-> << [id |-> 7, head |-> C("w", <<V(1)>>), body |-> TrueA, nv |-> 1] >>] >>
 
 VARIABLES st, hist, steps
 gvars == <<st, hist, steps>>
